@@ -53,10 +53,20 @@ def _z3_worker(job):
         portfolio = [([], min(timeout_ms, 3000))]
         if timeout_ms > 3000:
             portfolio += [(["smt.arith.solver=2"], 4000), (["smt.random_seed=3"], timeout_ms // 2), (["smt.random_seed=11"], timeout_ms // 2)]
-        for opts, tmo in portfolio:
+        early = None
+        for n_try, (opts, tmo) in enumerate(portfolio):
             res, extra = _z3_once(path, tmo, opts)
             if res in ("sat", "unsat"):
                 break
+            if n_try == 0 and len(portfolio) > 1 and os.path.exists(CVC5):
+                # the other solver, briefly, before more z3 configurations are tried: queries z3 loops on for minutes are
+                # often a matter of milliseconds for cvc5 (and the other way round)
+                _, cres, csecs, _ = _cvc5_worker((key, smt2, 5000))
+                if cres == "unsat":
+                    early = (cres, csecs)
+                    break
+        if early is not None:
+            return key, "unknown", round(time.time() - t0, 3), "cvc5-early", early
         if res == "sat":
             # counter-model for the replay file
             with open(path, "a") as fh:
@@ -141,13 +151,16 @@ def discharge_texts(items, timeout_ms=20000, jobs=None, use_cvc5=True, cvc5_all=
     work = [(k, uniq[k]["smt2"], tmo(k)) for k in order]
     if work:
         with mp.get_context("fork").Pool(min(jobs, len(work))) as pool:
-            for key, res, secs, extra in pool.imap_unordered(_z3_worker, work):
+            for ret in pool.imap_unordered(_z3_worker, work):
+                key, res, secs, extra = ret[:4]
                 results[key] = dict(z3=res, z3_s=secs, z3_extra=extra)
+                if len(ret) > 4:                      # decided by the early cvc5 attempt inside the portfolio
+                    results[key].update(cvc5=ret[4][0], cvc5_s=ret[4][1], cvc5_extra="early")
     if use_cvc5:
         # second opinion on everything (thorough tier): a short budget is enough to expose a contradiction
         again = [(k, uniq[k]["smt2"], min(timeout_ms, 10000) if cvc5_all and results[k]["z3"] == "unsat" else timeout_ms) for k in order
                  if uniq[k]["kind"] != "vacuity" and uniq[k]["oid"] not in brief
-                 and (cvc5_all or results[k]["z3"] in ("unknown", "error"))]
+                 and (cvc5_all or results[k]["z3"] in ("unknown", "error")) and results[k].get("cvc5") != "unsat"]
         if again:
             with mp.get_context("fork").Pool(min(jobs, len(again))) as pool:
                 for key, res, secs, extra in pool.imap_unordered(_cvc5_worker, again):
